@@ -48,6 +48,7 @@ def build(r, name, n, mask, fieldless, generics=None):
     if fieldless and not generics:
         ders += ["VariantArray", "Display", "AsRefStr"]
     s.derives = ders
+    gen.add_noise(r, s, enum_level=False, skip=("serialize", "std_default"))
     return s
 
 
